@@ -69,6 +69,9 @@ type Sim struct {
 	// per-call observations
 	StallNsInCall int64
 	IdleInCall    int
+	// the most recent clock stall: scheduler step at which it was injected, fake time when it ended
+	LastStallStep int
+	LastStallEnd  time.Time
 }
 
 func New(tape []uint32, faults []Fault) *Sim {
@@ -158,6 +161,7 @@ func (s *Sim) stepOnce(allowIdle bool) bool {
 				s.Stats.StallNs += f.D
 				s.StallNsInCall += f.D
 				time.Sleep(time.Duration(f.D))
+				s.LastStallStep, s.LastStallEnd = s.Step, time.Now()
 			}
 		}
 		return true
